@@ -7,6 +7,31 @@ CLAIMS = {
   text="Deductive proof (VCs from the real Go source, discharged by z3/cvc5) that every mutator of the per-session snapshot list keeps it dense, strictly UID-ascending and index-consistent, with whole-view postconditions (insert appends exactly one message, remove shifts exactly one position, lookups return the position they claim). This is the inductive core of 'announced view = answered view'; the responder layer that emits EXISTS/EXPUNGE/FETCH is not yet under contract.",
   note="Assumes session confinement of State (C19), the dependency specs of slices.BinarySearchFunc and xslices.Insert, mathematical heap model (no goroutines). Undecided: responders (targetedExists/expunge/fetch handle), flushResponses, response.Merge, snapshot construction from SQL rows.",
   ref="DESIGN.md §4 C01"),
+
+ "C03": dict(
+  text="Deductive proof of the Go side of every bulk database operation behind APPEND/STORE/EXPUNGE/COPY/MOVE: for every list length (below, at and beyond the 1000/500 statement-batching limit) each statement handed to the driver has exactly as many arguments as `?` placeholders, the arguments of the statement built for a chunk are that chunk (chunks are specified to tile the input in order), and no index/nil/overflow obligation remains open. Two genuine defects found this way were repaired (IDs beyond the first chunk never removed; flags set on the first message of a chunk only).",
+  note="Assumes: the trusted placeholder precondition of the SQL helper functions (go-sqlite3 ignores surplus arguments), fmt.Sprintf/strings.Join/Repeat placeholder arithmetic, xslices.Chunk specification, SQLite executes the text as written. Undecided: the SQL text itself, the reference semantics of whole command sequences, flag algebra, store bytes, NO/BAD roll-back (wrapTx).",
+  ref="DESIGN.md §4 C03"),
+ "C04": dict(
+  text="Deductive (sequential) proof that each UIDVALIDITY generator hands out a value strictly greater than its previous low-water mark, which it becomes (so values of one generator instance strictly increase), and the obligation that UIDNEXT = highest AUTOINCREMENT value + 1 does not wrap (currently a recorded known finding at 2^32-1).",
+  note="Assumes sequential use of the generator (atomics specified without interference), wall clock arbitrary, SQLite AUTOINCREMENT never reuses values. Undecided: restarts, delete/re-create histories, APPENDUID/COPYUID pass-through.",
+  ref="DESIGN.md §4 C04"),
+ "C05": dict(
+  text="Deductive proof that State.popResponders releases everything in order when expunges are permitted and otherwise releases no *expunge responder, holds back only *expunge/*targetedExists responders, loses or duplicates nothing (count) and keeps every expunge queued; plus whole-module syntactic obligations: only expunge.handle may construct an EXPUNGE response, flush(…, permitExpunge=true) may only be called from the handlers of commands that permit EXPUNGE, State.flushResponses(…, true) only from beginIdle / Mailbox.Flush; every implementation of Responder.getMessageID is effect-free.",
+  note="Assumes session confinement (C19). Undecided: order preservation inside pop/rem beyond the counted partition, the held-exists-after-held-expunge rule, [EXPUNGEISSUED], responder handle bodies.",
+  ref="DESIGN.md §4 C05"),
+ "C08": dict(
+  text="Deductive proof, for all list lengths, of the Go side of all read/write operations of the SQLite implementation (69 functions): placeholder/argument agreement of every statement, chunk arguments, GenSQLIn called with a positive count, result accumulation loops, no open safety obligation. The SQL strings are not interpreted.",
+  note="Same trusted base as C03. Two operations that splice configured flag names into the SQL text (AddFlagsToAllMailboxes / AddPermFlagsToAllMailboxes) are outside the claim. Undecided: equivalence with a relational model (needs SQL semantics), transactions.",
+  ref="DESIGN.md §4 C08"),
+ "C12": dict(
+  text="Deductive proof for the rfc822 layer on arbitrary bytes: Split cuts at one index; the header parser terminates, never indexes out of range, and returns entries that lie inside the header, are ordered and tile it; NewHeader terminates; the multipart scanner terminates and every part it reports lies inside the data at the recorded offset; Section accessors are adjacent slices of the literal; parse builds a well-formed Section.",
+  note="Assumes bytes.Index/Trim specs. Undecided: Section.load/Children/Part/Walk (child ranges inside parent), rfc5322 address/date parsers, balanced parentheses of ENVELOPE/BODYSTRUCTURE output, structure = MIME tree.",
+  ref="DESIGN.md §4 C12"),
+ "C13": dict(
+  text="Deductive proof on the slicing layer of FETCH: a partial <o.n> is exactly literal[o : min(o+n, len)] (empty beyond the end) with no overflow for 32-bit offsets/counts; Header()/Body()/Literal() of a section are adjacent slices (BODY[HEADER]++BODY[TEXT] = BODY[]); header entries tile the header (no byte lost between HEADER.FIELDS and HEADER.FIELDS.NOT at the entry level); multipart parts start at their recorded offset. Two genuine defects found this way were repaired (empty-valued header field; truncated last part).",
+  note="Assumes 0 <= offset, 0 < count <= 2^32-1 at WithPartial's call site (established by the parser's number bound, C16). Undecided: Header.Fields/FieldsNot loops over the linked list, SetHeaderValueNoMemCopy, literal framing, store round trip (C09).",
+  ref="DESIGN.md §4 C13"),
  "C10": dict(
   text="Deductive proof that the scanner classifies every byte value into exactly the RFC 3501 character class (total, loop-free, so complete), that ByteToLower/ByteToInt are the arithmetic they claim, that the token look-ahead of the parser is the next unread byte of the source, and that number / sequence-number / sequence-range / sequence-set parsers return values within the ranges written. Composite commands (fetch attributes, search keys, ...) are not under functional contract yet.",
   note="Assumes the Reader model (finite byte sequence then EOF forever, trusted spec of Reader.ReadByte). Undecided: exact decimal value of numbers, strings/literals, dates, composite command grammar, case-insensitivity of keywords, chunking independence beyond byte-wise reads.",
